@@ -151,7 +151,7 @@ func (f c17fmt) denCmp(a, b val.Value) int {
 }
 
 func (c17) NumCases(tier string, seed int64) int {
-	n := 16 + 16 + 12 + 4 + 12 // int8 rows, uint8 rows, wide formats, non-comparable equality, tuple cases
+	n := 16 + 16 + 12 + 5 + 12 // int8 rows, uint8 rows, wide formats, non-comparable equality, tuple cases
 	n += c17LookupCases(tier)
 	if tier == "thorough" {
 		n += 64 // random extension
@@ -191,12 +191,12 @@ func (p c17) Run(c *core.Ctx, idx int) {
 		}
 		p.triples(c, f, all)
 		c.SetSample(fmt.Sprintf("%s: all pairs and triples over %d boundary values, e.g. %v, %v, %v", f.name, f.n, f.mk(0), f.mk(f.n/2), f.mk(f.n-1)))
-	case idx < 48:
+	case idx < 49:
 		p.nonComparable(c, idx-44)
-	case idx < 60:
-		p.tuples(c, fs, idx-48)
-	case idx < 60+c17LookupCases(c.Tier):
-		c17Lookup(c, idx-60)
+	case idx < 61:
+		p.tuples(c, fs, idx-49)
+	case idx < 61+c17LookupCases(c.Tier):
+		c17Lookup(c, idx-61)
 	default:
 		p.random(c, fs)
 	}
@@ -284,6 +284,9 @@ func (p c17) nonComparable(c *core.Ctx, k int) {
 			func(v val.Value) string { return fmt.Sprintf("%q", v.Value()) }},
 		{"int32-list", []val.Value{val.Int32List{1, 2}, val.Int32List{1, 2}, val.Int32List{2, 1}, val.Int32List{1}},
 			func(v val.Value) string { return fmt.Sprint(v.Value()) }},
+		// members of a union of two enumerations: the same value under two names is two values
+		{"enum-of-union", []val.Value{val.Enum{Id: 0, Label: "x"}, val.Enum{Id: 0, Label: "z"}, val.Enum{Id: 1, Label: "y"}, val.Enum{Id: 1, Label: "w"}, val.Enum{Id: 0, Label: "x"}, val.Enum{Id: 2, Label: "x2"}},
+			func(v val.Value) string { return fmt.Sprintf("%d/%s", v.(val.Enum).Id, v.(val.Enum).Label) }},
 	}
 	g := groups[k]
 	for _, a := range g.vals {
